@@ -133,12 +133,35 @@ def fam_kinds(rng, pid, kinds, count, n=(12, 20), styles=STYLES, twins=("batch",
         cfg = rand_cfg(rng, kind, rv=rng.choice(rvs), tf=tf, fill=fill)
         nn = rng.randint(*n) + (10 if tf else 0) + (2 * max(cfg.p, cfg.p2, cfg.p3) if max(cfg.p, cfg.p2, cfg.p3) > 6 else 0)
         style = rng.choice(styles)
-        out.append(ind_scenario(rng, f"{pid}/{kind}/{t}", "kinds", cfg, nn, style, twins, tf=tf,
-                                # refreshing a reading that is already there (calculate_index, also on the first
-                                # candle and by negative index) must give the definition's value again
-                                reindex=(rng.random() < {"C10": 0.35, "C04": 0.2, "C05": 0.2, "C06": 0.2}.get(pid, 0.0)),
-                                extra=rng.randint(1, 5) if "longer" in twins else 0,
-                                regular=tf_regular(rng, tf) if tf and rng.random() < 0.6 else None))
+        if pid in ("C06", "C10") and kind in ("STOCH", "RSI", "AROON", "ADX", "TSI", "ROC") and rng.random() < 0.25:
+            style = "micro"
+        sc = ind_scenario(rng, f"{pid}/{kind}/{t}", "kinds", cfg, nn, style, twins, tf=tf,
+                          # refreshing a reading that is already there (calculate_index, also on the first
+                          # candle and by negative index) must give the definition's value again
+                          reindex=(rng.random() < {"C10": 0.35, "C04": 0.2, "C05": 0.2, "C06": 0.2}.get(pid, 0.0)),
+                          extra=rng.randint(1, 5) if "longer" in twins else 0,
+                          regular=tf_regular(rng, tf) if tf and rng.random() < 0.6 else None)
+        if (pid in ("C04", "C05", "C10", "C14") and "longer" not in twins and rng.random() < 0.12
+                and not any(x[0] in ("poke", "calculate_index") for x in sc["prog"])
+                and len([x for x in sc["prog"] if x[0] == "append"]) >= 2):
+            # settings the name does not carry (rounding, EMA smoothing, the input of a plain average, a
+            # band multiplier) are changed on the live indicator, which is then recalculated -- what
+            # recalculate is documented for; from then on the readings follow the new settings
+            new = cfg.clone(rv=rng.choice([x for x in (0, 2, 3, 4, 5) if x != cfg.rv]))
+            if kind in ("SMA", "EMA", "RMA", "WMA") and rng.random() < 0.6:
+                new.inp = rng.choice([x for x in ("close", "open", "high", "low") if x != cfg.inp])
+            if kind == "EMA" and rng.random() < 0.6:
+                new.smoothing = rng.choice([x for x in (1.5, 2.0, 3.0) if x != (cfg.smoothing or 2.0)])
+            if kind in ("KC", "Supertrend", "STDEVTHRES") and rng.random() < 0.6:
+                new.mult = rng.choice([x for x in (1.0, 1.5, 2.0, 3.0) if x != cfg.mult])
+            if new.build(standalone=False).name == cfg.build(standalone=False).name:
+                k_ = max(i for i, x in enumerate(sc["prog"]) if x[0] == "append")
+                sc["prog"].insert(k_, ("reconf", 0, 1))
+                sc["late"] = [new]
+                sc["twins"] = []
+                sc["names_fixed"] = True
+                sc["id"] += "/reconf"
+        out.append(sc)
     return out
 
 
@@ -214,12 +237,14 @@ def fam_manager(rng, pid, count, fills=(False,), has=(False,), lifes=(None,), he
             cfg = rand_cfg(rng, kind, tf=tf if rng.random() < 0.6 else None)
             hexcfg = {"timeframe": None if cfg.timeframe else tf, "fill": fill, "lifespan": lifespan, "ctype": ctype}
             sc = hex_scenario(rng, f"{pid}/hexmgr{tag}/{tf}/{t}", "manager", [cfg], n, rng.choice(["mixed", "walk"] if ha else ["mixed", "walk", "decimal"]),
-                              twins=twins, hexcfg=hexcfg, tf=tf, regular=regular, pre_choices=(0, 1, 2, n))
+                              twins=twins, hexcfg=hexcfg, tf=tf, regular=regular, pre_choices=(0, 1, 2, n),
+                              extra=(rng.randint(2, 6) if "aligned" in twins else 0))
         else:
             cfg = rand_cfg(rng, kind, tf=tf, fill=fill)
             cfg.lifespan, cfg.ctype = lifespan, ctype
             sc = ind_scenario(rng, f"{pid}/mgr{tag}/{tf}/{t}", "manager", cfg, n, rng.choice(["mixed", "walk"] if ha else ["mixed", "walk", "decimal"]),
-                              twins=twins, tf=tf, regular=regular, pre_choices=(0, 1, 2, n))
+                              twins=twins, tf=tf, regular=regular, pre_choices=(0, 1, 2, n),
+                              extra=(rng.randint(2, 6) if "aligned" in twins else 0))
         if sc["obj"] == "ind" and rng.random() < 0.25:
             # the candle manager used directly, its timeframe given as string (any case) or enum
             sc["obj"] = "mgr"
@@ -450,7 +475,11 @@ def _scenarios(pid, tier, rng):
                 + fam_amorph(rng, pid, k(40, 240), twins=("longer",))
                 + fam_chain(rng, pid, k(40, 240), targets=("STDEV", "TSI", "SMA", "EMA", "RSI", "BBANDS", "ROC"),
                             reverse=True, twins=())
-                + fam_hexital(rng, pid, k(40, 240), twins=("longer",)))
+                + fam_hexital(rng, pid, k(40, 240), twins=("longer",))
+                # a lifespan (and Heikin-Ashi on top of it): the candles a shorter history shows and a longer one
+                # still retains are the same candles
+                + fam_manager(rng, pid, k(40, 240), has=(True, False), lifes=(2, 3, 5, 8), units=("N",),
+                              twins=("aligned",), tag="l", hexshare=0.3))
     if pid == "C03":
         return (fam_manager(rng, pid, k(350, 1700)) + fam_disorder(rng, pid, k(40, 200))
                 + fam_aware(rng, pid, k(20, 150))
